@@ -837,3 +837,14 @@ def read_after_completion(parallel=False):
             ['accessors_all', 'P1'], ['accessors_all', 'L1'], ['obs', 'read_once', 'P1'], ['obs', 'read_once', 'L1'],
             ['accessors_all', 'P1'], ['accessors_all', 'L1'], ['idle', 'A'], ['obs_all', 'end']]
     return dict(buses=['A'], parallel=['A'] if parallel else [], reals={'d1': D}, handlers=handlers, main=main, horizon=5)
+
+
+
+def spawned_child_between_handlers(first_sync=True, parallel=False):
+    """serial bus, two handlers on P: the first starts a background task (not awaited) that dispatches a handler-less child and
+    awaits it — the child completes in the gap between the two handlers; the second handler is slow.  An external await on P must
+    not return before the second handler is done, and what it returned must not change afterwards."""
+    first = [['spawn', [['dispawait', 'A', 'G', 'G1']]], ['ret', 'kicked']]
+    handlers = [['A', 'P', 'hP0', first, {'sync': first_sync}], ['A', 'P', 'hP1', [['sleep', 'd1'], ['ret', 'worked']]]]
+    main = [['root', 'A', 'P', 'P1'], ['await', 'P1'], ['obs', 'after_await', 'P1'], ['idle', 'A'], ['sleep', '1/2'], ['obs_all', 'end']]
+    return dict(buses=['A'], parallel=['A'] if parallel else [], reals={'d1': D}, handlers=handlers, main=main, horizon=6)
